@@ -128,6 +128,7 @@ class Case:
         self.clients = Lazy()
         self.outcomes = []
         self.new_ids = {}
+        self.late = []
 
     def ref(self, b, name):
         return b.get_dataset(self.ids[name])
@@ -149,6 +150,15 @@ class Case:
                 b.registry.registerRun("r3")
             elif op == "purge-x2":
                 b.pruneDatasets([self.ref(b, "x2")], purge=True, unstore=True, disassociate=True)
+            elif op == "purge-x2-late":
+                # B's own removal is paused after its first commit; it empties the trash only after A has finished
+                real = b._datastore.emptyTrash
+                b._datastore.emptyTrash = lambda *a, **k: None
+                try:
+                    b.pruneDatasets([self.ref(b, "x2")], purge=True, unstore=True, disassociate=True)
+                finally:
+                    del b._datastore.emptyTrash
+                self.late.append(real)
             else:
                 raise ValueError(op)
             out = "ok"
@@ -203,7 +213,13 @@ class Case:
         for k in (1, 2, 3):
             fire(k)  # boundaries the operation did not reach (it failed early): the others still run, afterwards
         self.outcomes.append(("A", a_op, out))
+        for fn in self.late:
+            fn()
+        self.late.clear()
         fire(4)
+        for fn in self.late:
+            fn()
+        self.late.clear()
         del ds.emptyTrash, ds.bridge.emptyTrash
 
     def close(self):
@@ -213,6 +229,7 @@ class Case:
 def schedules(ctx, model_ok, tmp):
     rng = ctx.rng
     template, ids = build_template(tmp)
+    registration_races(ctx, tmp, template)
     req, impl = [], []
 
     def viol(what, key, replay):
@@ -239,6 +256,9 @@ def schedules(ctx, model_ok, tmp):
                     case.run_a(op, {})
                 else:
                     case.do(who, op)
+                    for fn in case.late:
+                        fn()
+                    case.late.clear()
             case.close()
             st = observe(case.root)
             results[(tuple(sorted(case.outcomes)), canon(st))] = [f"{w}:{o}" for w, o in order]
@@ -246,9 +266,11 @@ def schedules(ctx, model_ok, tmp):
         return results
 
     a_ops = ["purge-x1", "purge-x1", "unstore-x1", "removeRuns-r2"]
-    other_ops = ["put-same", "put-other", "assoc-x2", "chain-r2", "reg-r3", "purge-x2"]
+    other_ops = ["put-same", "put-other", "assoc-x2", "chain-r2", "reg-r3", "purge-x2", "purge-x2-late"]
     corpus = [("purge-x1", [("B", "put-same")], {2: [("B", "put-same")]}),      # the recorded witness of C20-a
-              ("purge-x1", [("B", "put-same")], {1: [("B", "put-same")]})]
+              ("purge-x1", [("B", "put-same")], {1: [("B", "put-same")]}),
+              ("purge-x1", [("B", "purge-x2-late")], {2: [("B", "purge-x2-late")]}),
+              ("purge-x1", [("B", "purge-x2-late")], {3: [("B", "purge-x2-late")]})]
     n_cases = 18 if ctx.quick() else 1500
     for n in range(n_cases + len(corpus)):
         if n < len(corpus):
@@ -259,6 +281,8 @@ def schedules(ctx, model_ok, tmp):
             for who in ("B", "C"):
                 k = rng.choice([1, 1, 2]) if who == "B" else rng.choice([0, 0, 1])
                 for op in rng.sample(other_ops, k):
+                    if op.startswith("purge-x2") and any(o.startswith("purge-x2") for _, o in others):
+                        continue
                     others.append((who, op))
             at = {}
             for who in ("B", "C"):
@@ -358,6 +382,101 @@ def schedules(ctx, model_ok, tmp):
                     ctx.broken.append(f"correspondence: `{line[100:260]}` model={m} implementation={i}")
         ctx.extra["correspondence_lines"] = len(req)
         ctx.extra["correspondence_disagreements"] = nd
+
+
+def registration_races(ctx, tmp, template):
+    """Races inside get-or-create registrations: client B's whole registration lands inside a window of client A's
+    (between A's lookup and its insert-or-compare; between A's refresh and its table lock)."""
+    from lsst.daf.butler import Butler, DatasetType
+
+    def viol(what, key, replay):
+        ctx.violations.append(core.Violation(what=what, key=key, replay=replay))
+
+    def fresh(tag):
+        root = os.path.join(tmp, tag)
+        shutil.rmtree(root, ignore_errors=True)
+        shutil.copytree(template, root)
+        return root
+
+    def observe_types(root):
+        try:
+            b = Butler.from_config(root)
+            return sorted((t.name, t.storageClass_name, tuple(sorted(t.dimensions.names))) for t in b.registry.queryDatasetTypes())
+        except Exception as e:
+            return f"fresh client cannot list dataset types: {type(e).__name__}"
+
+    def call(f):
+        from lsst.daf.butler.registry import ConflictingDefinitionError
+
+        try:
+            return repr(f())
+        except ConflictingDefinitionError:
+            return "ConflictingDefinitionError"  # including its subclass DatabaseConflictError
+        except Exception as e:
+            return type(e).__name__
+
+    scenarios = {
+        # the same name with different storage classes: exactly one definition wins, the other registration is refused
+        "conflicting-storage-class": (lambda b: b.registry.registerDatasetType(DatasetType("race", {"instrument", "detector"}, "StructuredDataDict", universe=b.dimensions)),
+                                      lambda b: b.registry.registerDatasetType(DatasetType("race", {"instrument", "detector"}, "StructuredDataList", universe=b.dimensions)), "sync"),
+        # two different dataset types that are the first of a new dimension set
+        "new-dimension-group": (lambda b: b.registry.registerDatasetType(DatasetType("ga", {"instrument", "physical_filter"}, "StructuredDataDict", universe=b.dimensions)),
+                                lambda b: b.registry.registerDatasetType(DatasetType("gb", {"instrument", "physical_filter"}, "StructuredDataDict", universe=b.dimensions)), "lock"),
+        "new-dimension-group-at-sync": (lambda b: b.registry.registerDatasetType(DatasetType("ga", {"instrument", "physical_filter"}, "StructuredDataDict", universe=b.dimensions)),
+                                        lambda b: b.registry.registerDatasetType(DatasetType("gb", {"instrument", "physical_filter"}, "StructuredDataDict", universe=b.dimensions)), "sync"),
+        "same-run": (lambda b: b.registry.registerRun("race_run"), lambda b: b.registry.registerRun("race_run"), "sync"),
+    }
+    for name, (fa, fb, where) in scenarios.items():
+        seq = set()
+        for order in ("AB", "BA"):
+            root = fresh("rseq")
+            A, B = Butler.from_config(root, writeable=True), Butler.from_config(root, writeable=True)
+            outs = {}
+            for c in order:
+                outs[c] = call(lambda: (fa(A) if c == "A" else fb(B)))
+            del A, B
+            seq.add((outs["A"], outs["B"], repr(observe_types(root))))
+        root = fresh("rpar")
+        A, B = Butler.from_config(root, writeable=True), Butler.from_config(root, writeable=True)
+        db = A._registry._db
+        fired = []
+        out_b = []
+
+        def run_b():
+            if not fired:
+                fired.append(1)
+                out_b.append(call(lambda: fb(B)))
+
+        if where == "sync":
+            orig = db.sync
+
+            def sync(*a, **k):
+                run_b()
+                return orig(*a, **k)
+
+            db.sync = sync
+        else:
+            orig_t = db.transaction
+
+            def transaction(*a, **k):
+                if k.get("lock"):
+                    run_b()
+                return orig_t(*a, **k)
+
+            db.transaction = transaction
+        out_a = call(lambda: fa(A))
+        if not fired:
+            out_b.append(call(lambda: fb(B)))
+            ctx.count(f"race-window-not-reached:{name}")
+        del A, B
+        got = (out_a, out_b[0], repr(observe_types(root)))
+        ctx.evaluations += 1
+        ctx.count(f"race:{name}")
+        ctx.nontrivial.add(("race", name))
+        if got not in seq:
+            viol(f"registration race {name} (B inside A's {'lookup-to-insert' if where == 'sync' else 'refresh-to-lock'} window): outcomes A={out_a} B={out_b[0]}, "
+                 f"afterwards {got[2][:160]}; sequential orders give {sorted(seq)}"[:900], f"c20:race:{name}", {"kind": "race", "scenario": name, "got": list(got)})
+        shutil.rmtree(root, ignore_errors=True)
 
 
 def replay(ctx, content):
